@@ -290,7 +290,8 @@ def bounded(tier, seed):
     specs = H.file_specs(tier, seed)
 
     def selectors(n):
-        s = [0, n - 1, -1, -n, slice(None), slice(0, 1), slice(1, None), slice(None, None, 2), slice(None, None, -1),
+        # (numpy integer scalars -- what argmax() or an index array element gives -- are integers too)
+        s = [0, n - 1, -1, -n, np.int64(n - 1), np.int32(-1), slice(None), slice(0, 1), slice(1, None), slice(None, None, 2), slice(None, None, -1),
              slice(n, 0, -1), slice(2, 1), slice(-100, 100), [0], [n - 1, 0], [0, 0, n - 1]]
         if tier != 'quick':
             s += [slice(-2, None), slice(None, -1), slice(n - 1, None, -2), [-1], list(range(n))[::-1]]
@@ -358,6 +359,8 @@ def bounded(tier, seed):
                 pairs += [(a, [n2 - 1, 0]) for a in ints(S1)[:2]] + [([0, n1 - 1], b) for b in ints(S2)[:2]]
                 pairs += [(a, [0, 0, n2 - 1]) for a in sls(S1)[:2]] + [([n1 - 1, 0, 0], b) for b in sls(S2)[:2]]
                 pairs += [([n1 - 1, 0], [0, n2 - 1]), ([0, n1 - 1, n1 - 1], [n2 - 1, 0, n2 - 1]), ([0], [n2 - 1])]
+                # numpy integer scalars combined with index lists and slices
+                pairs += [(np.int64(n1 - 1), [0, 0, n2 - 1]), ([n1 - 1, 0, 0], np.int32(-1)), (np.int64(0), slice(None, None, -1)), (np.int32(-1), np.int64(0))]
             else:
                 pairs = [(a, b) for a in S1 for b in S2]
             for s1, s2 in pairs:
